@@ -666,6 +666,9 @@ def gen_rrt_job(r, quick=True):
     """one random RRT problem; returns (job, classes) where classes names the input classes it falls into"""
     cls = []
     dim = r.choice([1, 2, 2, 2, 3, 3, 4, 5, 6, 8])
+    se2 = r.below(3) == 0         # SE2StateSpace: compound sampler (three generators), SO(2) distance / interpolation
+    if se2:
+        dim = 2
     kind = r.below(4)
     if kind == 0:
         lo, hi = [0.0] * dim, [1.0] * dim
@@ -748,20 +751,39 @@ def gen_rrt_job(r, quick=True):
     elif gk == 5:
         goals = [at(0.9), at(0.9)]
         cls.append("goals:duplicate(GoalStates)")
+    if se2:
+        PI = 3.141592653589793
+        below_pi = 3.1415926535897927      # pi - 1 ulp
+        def yaw():
+            return r.choice([0.0, 1.0, -2.5, 3.0, -3.1, below_pi, -PI, r.uniform(-PI, PI), r.uniform(-PI, PI)])
+        starts = [s_ + [yaw()] for s_ in starts]
+        goals = [g + [yaw()] for g in goals]
+        yk = r.below(6)
+        if yk == 0:             # yaw = +pi is outside the half-open range: the start is skipped as out of bounds
+            starts = [starts[0][:2] + [PI]] + starts
+            cls.append("se2:start-yaw-pi(out-of-bounds)")
+        elif yk == 1:           # start and goal on opposite sides of the +-pi seam: interpolation goes the short way round
+            starts[-1][2] = 3.0
+            goals[0][2] = -3.0
+            cls.append("se2:across-the-seam")
+        elif yk == 2:
+            starts[-1][2] = -PI
+            goals[0][2] = below_pi
+            cls.append("se2:seam-endpoints")
     diag = sum(e * e for e in ext) ** 0.5
     thr = r.choice([0.02, 0.05, 0.05, 0.0, 2.220446049250313e-16, 0.3, 5.0, -1.0]) * (diag if r.below(2) else 1.0)
     res = r.choice([0.02, 0.02, 0.013, 0.5, 0.003, 0.99, 0.1])
     rng_ = r.choice([0.0, 0.0, 0.07, 1e-3, 10.0, 1e-17, 0.2]) * (diag if r.below(2) else 1.0)
     bias = r.choice([0.05, 0.05, 0.2, 0.0, 1.0, 0.5, 2.0, -0.5])
     budgets = [0, 1, 2, 5, 17, 50, 120, 300, 700, 1500] if quick else [0, 1, 5, 50, 300, 700, 1500, 3000, 6000]
-    j = {"dim": dim, "lo": lo, "hi": hi, "boxes": boxes, "starts": starts, "goals": goals, "thr": thr, "res": res,
+    j = {"space": "se2" if se2 else "rv", "dim": dim, "lo": lo, "hi": hi, "boxes": boxes, "starts": starts, "goals": goals, "thr": thr, "res": res,
          "range": rng_, "bias": bias, "is": 1 if r.below(3) == 0 else 0,
          "seed": 0 if r.below(25) == 0 else rand_seed(r), "budget": r.choice(budgets),
          "hist": r.choice(["s", "s", "s", "ss", "scs", "sss", "scss", "sscs", "scsc"]),
          "ptc": r.choice(["evals", "evals", "iter"])}
     if j["res"] <= 0.003 and j["budget"] > 700:
         j["budget"] = 700           # hundreds of interpolated states per motion: keep the transcript short
-    cls += ["dim:%d" % dim, "hist:" + j["hist"], "ptc:" + j["ptc"], "is:%d" % j["is"],
+    cls += ["space:" + j["space"], "dim:%d" % dim, "hist:" + j["hist"], "ptc:" + j["ptc"], "is:%d" % j["is"],
             "bias:%g" % bias, "res:%g" % res, "range:" + ("auto" if rng_ < 2.220446049250313e-16 else "set"),
             "thr:" + ("never" if thr <= 0 else "eps" if thr < 1e-10 else "huge" if thr >= diag else "normal")]
     if j["seed"] == 0:
@@ -1132,7 +1154,7 @@ def run(ck):
                    "status/path/planner data/query transcript)",
                    "model abstraction: rejection loops bounded by a fuel of 4096 rounds; ProlateHyperspheroid::transform (Eigen) not modelled",
                    "harness/rng_rrt.cpp (explicit RealVector problems, box checker, counting condition, hashes of transcript / "
-                   "path / tree); RRT model: planning loop bounded by budget + 2 iterations (prints model-diverged when exhausted)",
+                   "path / tree); RRT model: loop fuel proved unreachable (rrt_never_out_of_fuel); model-diverged only if a seed draw's rejection loop gives up",
                    "glibc MALLOC_PERTURB_ and ASLR as the means to vary what an undisciplined planner could observe"]
     ck.assumptions += ["this toolchain: g++ 12 / libstdc++ / glibc x86-64 (std::uint_fast32_t is 64 bit); the bit patterns "
                        "are not claimed for other standard libraries",
@@ -1435,13 +1457,14 @@ MANIFEST = {
             "and its converse witness (an output component nobody wrote depends on garbage). Tied to the code by bit-for-bit "
             "differential runs of the real RNG against the compiled model (PHS outputs are confirmed to be transform() of the "
             "model's point). Sampler level: every shipped sampler's output is independent of the output state's old content. "
-            "One planner is inside the model: geometric::RRT (with NearestNeighborsLinear) on RealVector problems is written as an "
+            "One planner is inside the model: geometric::RRT (with NearestNeighborsLinear) on RealVector and SE(2) problems is written as an "
             "oracle computation over the RNG model (generator allocation order, goal-bias draw, RealVectorStateSampler, nearest, "
             "interpolate, DiscreteMotionValidator bisection, intermediate states, GoalState/GoalStates, solve/clear histories, "
             "IterationTerminationCondition) and runs in lock-step with the real planner on random explicit problems — status, "
             "path, tree, transcript hash, counters and the generators' local seeds must agree bit for bit; theorems: any such "
             "computation is reproducible from the global seed whatever the clock read, the i-th generator it creates gets "
-            "ithSeed(s,i) under every interleaving, IterationTerminationCondition depends on the number of polls only. "
+            "ithSeed(s,i) under every interleaving, IterationTerminationCondition depends on the number of polls only, the model's loop "
+            "fuel is never the reason a run ends. "
             "For all other planners determinism is observed: every single-threaded planner that can be constructed generically (geometric, "
             "control incl. Syclop, multilevel, XXL, PRM through growRoadmap/expandRoadmap, SPARS/SPARStwo through constructRoadmap, "
             "Thunder's SPARSdb::addPathToRoadmap) is run in "
